@@ -20,6 +20,10 @@ def FullHead : List Anc → Prop
   | A :: _ => A.kind = .func → ∀ x ∈ ckeys A.refs, x ∈ A.decl → ∃ v, A.remapped.lookup x = some v ∧ v ≠ ""
   | [] => True
 
+def CatchFullHead : List Anc → Prop
+  | A :: _ => ∀ sym u, A.kind = .catch sym u → ∃ v, A.remapped.lookup sym = some v ∧ v ≠ ""
+  | [] => True
+
 def LeakHead : List Anc → Prop
   | A :: C => A.kind = .func → ∀ x ∈ ckeys A.refs, x ∉ A.decl → x ∈ ckeys (effRefs C)
   | [] => True
@@ -65,7 +69,8 @@ theorem table_full {cs : List Char} (hnd : cs.Nodup) (hne : cs ≠ []) (res kw :
 mutual
   theorem buildTree_tableFacts {cs : List Char} (hnd : cs.Nodup) (hne : cs ≠ []) (kw : List String) :
       ∀ (chain : List Anc) (doSelf : Bool) (t : STree) (r : RTree), buildTree cs kw chain doSelf t = .ok r →
-        ∀ rec ∈ recsOf chain t r, KeysHead rec.chain ∧ (rec.chain.length ≠ chain.length + 1 ∨ doSelf = true → FullHead rec.chain)
+        ∀ rec ∈ recsOf chain t r, KeysHead rec.chain ∧ CatchFullHead rec.chain ∧
+          (rec.chain.length ≠ chain.length + 1 ∨ doSelf = true → FullHead rec.chain)
     | chain, doSelf, .mk id node kind refs decl children, r, h => by
       simp only [buildTree] at h
       split at h
@@ -86,24 +91,29 @@ mutual
               split at hrm
               · rename_i hds
                 obtain ⟨h1, h2⟩ := table_full hnd hne _ kw refs decl rm hrm
-                exact ⟨fun p hp => by simpa [declaredBy] using h1 p hp, fun _ _ => h2⟩
+                exact ⟨fun p hp => by simpa [declaredBy] using h1 p hp, (fun _ _ hk => SKind.noConfusion hk), fun _ _ => h2⟩
               · simp only [Except.ok.injEq] at hrm
                 subst hrm
                 rename_i hds
-                refine ⟨fun p hp => absurd hp List.not_mem_nil, ?_⟩
+                refine ⟨fun p hp => absurd hp List.not_mem_nil, (fun _ _ hk => SKind.noConfusion hk), ?_⟩
                 intro hor
                 rcases hor with hl | hd
                 · simp at hl
                 · exact absurd hd hds
             | «catch» sym u =>
               simp only at hrm
-              obtain ⟨names, rfl, _, _, _⟩ := table_spec2 hnd hne _ kw [sym] rm hrm
-              refine ⟨fun p hp => by simpa [declaredBy] using zip_fst_mem hp, fun _ hk => by cases hk⟩
+              obtain ⟨names, rfl, hl, _, hfresh⟩ := table_spec2 hnd hne _ kw [sym] rm hrm
+              refine ⟨fun p hp => by simpa [declaredBy] using zip_fst_mem hp, ?_, fun _ hk => by cases hk⟩
+              intro sym' u' hk
+              simp only [SKind.catch.injEq] at hk
+              obtain ⟨rfl, _⟩ := hk
+              obtain ⟨v, hv⟩ := lookup_zip_of_mem hl (List.mem_singleton.2 rfl)
+              exact ⟨v, hv, (hfresh v (lookup_zip_some hv).2).2⟩
           · have := buildChildren_tableFacts hnd hne kw _ children rcs hrcs rec hrec
-            refine ⟨this.1, fun _ => this.2⟩
+            refine ⟨this.1, this.2.1, fun _ => this.2.2⟩
   theorem buildChildren_tableFacts {cs : List Char} (hnd : cs.Nodup) (hne : cs ≠ []) (kw : List String) :
       ∀ (chain : List Anc) (ts : List STree) (rs : List RTree), buildChildren cs kw chain ts = .ok rs →
-        ∀ rec ∈ recsOfList chain ts rs, KeysHead rec.chain ∧ FullHead rec.chain
+        ∀ rec ∈ recsOfList chain ts rs, KeysHead rec.chain ∧ CatchFullHead rec.chain ∧ FullHead rec.chain
     | _, [], rs, h => by
       simp only [buildChildren, Except.ok.injEq] at h
       subst h
@@ -123,7 +133,7 @@ mutual
           simp only [recsOfList, List.mem_append] at hrec
           rcases hrec with hrec | hrec
           · have := buildTree_tableFacts hnd hne kw chain true c r hr rec hrec
-            exact ⟨this.1, this.2 (Or.inr rfl)⟩
+            exact ⟨this.1, this.2.1, this.2.2 (Or.inr rfl)⟩
           · exact buildChildren_tableFacts hnd hne kw chain rest rs' hrs rec hrec
 end
 
